@@ -780,7 +780,7 @@ func registerImportChecks() {
 				for _, pre := range preambles {
 					for oi, oth := range others {
 						for prefix := 0; prefix < 2; prefix++ {
-							for hint := 0; hint < 5; hint++ {
+							for hint := 0; hint < 7; hint++ {
 								for anonOther := 0; anonOther < 2; anonOther++ {
 									n++
 									c := &Case{ID: fmt.Sprintf("C19-%d", n)}
@@ -797,6 +797,11 @@ func registerImportChecks() {
 										c.Ops = append(c.Ops, Op{Kind: OpHintAlias, F: 0, Str: []string{"C", "."}})
 									case 4:
 										c.Ops = append(c.Ops, Op{Kind: OpHintAlias, F: 0, Str: []string{"x.com/c", "C"}})
+									case 5:
+										// "C" hinted as itself (a generator that declares every import it uses)
+										c.Ops = append(c.Ops, Op{Kind: OpHintAlias, F: 0, Str: []string{"C", "C"}})
+									case 6:
+										c.Ops = append(c.Ops, Op{Kind: OpHintName, F: 0, Str: []string{"C", "C"}})
 									}
 									if anonC == 1 {
 										c.Ops = append(c.Ops, Op{Kind: OpAnon, F: 0, Str: []string{"C"}})
